@@ -169,8 +169,17 @@ def handleEngine (kv : List (String × String)) (impl : String) : String × Stri
       let o := lateObs ikv reports lines dropped
       -- a run that ends by itself without drops is fully determined: all pools × ammo × per reports, each one line
       let n := pools * ammo * per
-      let m := if !cancelled && dropped == 0 then modelEngineNatural kind n (max q n) else "-"
-      (m, judgeEngine kind (getS ikv "run") (getS ikv "aggret" == "1") cancelled pools o)
+      -- an overdue schedule with discard_overflow: how many tokens are overdue depends on the clock; the engine's own
+      -- "discarded" samples (one per ammo that was not shot) must all be in the output, next to the guns' reports
+      let discTok := lookup ikv "disc"
+      let overdue := (lookup kv "disc").isSome
+      let m := if !cancelled && dropped == 0 && !overdue then modelEngineNatural kind n (max q n) else "-"
+      let v := judgeEngine kind (getS ikv "run") (getS ikv "aggret" == "1") cancelled pools o
+      let v := if v == "ok" && discTok.isSome && !cancelled && getS ikv "run" == "nil" &&
+                  getN? ikv "disc" != getN? ikv "wantdisc" then
+                 s!"fail:count:{getS ikv "disc"} discarded-shoot lines in the output, the engine reported {getS ikv "wantdisc"}"
+               else v
+      (m, v)
     | _, _, _ => ("-", s!"fail:crash:{(impl.take 120).toString}")
   | _, _, _, _, _ => ("-", "fail:driver:unparsable input")
 
